@@ -295,6 +295,9 @@ def roundtrip_cause(x, text):
         return "lowered named-let is printed with ###N identifiers that do not lex"
     if "invalid escape" in err or "unclosed hex escape" in err or err == "Unexpected EOF" or "StringLiteral" in d1[:80]:
         return "string literal is printed without escapes"
+    if re.match(r"\w*Literal\(", d1) and re.match(r"\w*Literal\(", d2) and ('"' in d1[:600] or "\\" in d1[:600]):
+        # the excerpts start at the first difference, inside a StringLiteral( whose text contains a quote or a backslash
+        return "string literal is printed without escapes"
     if re.search(r"Quote\(Quote|ty: Quote", d1 + d2):
         return "quoted datum containing quote forms is printed ambiguously"
     if "CharacterLiteral" in d1[:120] or "invalid character name" in err:
